@@ -15,26 +15,10 @@ this to code whose operands are sizes, versions, levels and mask numbers.
 """
 import ast
 
-from .ev import ev, Sym, FuncRef, _bind, PyRaise, RepoExc, exc_issub, Scope
+from .ev import ev, Sym, FuncRef, _bind, PyRaise, RepoExc, exc_issub, Scope, GenList
 from .src import Unknown
 
 
-
-class GenList(list):
-    """What a generator function of the repository returns here: the values it yields (the body is run eagerly), usable as a
-    list by the rules, and consumed like an iterator by `next` and `for`."""
-    _pos = 0
-
-    def __iter__(self):
-        while self._pos < len(self):
-            self._pos += 1
-            yield list.__getitem__(self, self._pos - 1)
-
-    def __next__(self):
-        if self._pos >= len(self):
-            raise StopIteration
-        self._pos += 1
-        return list.__getitem__(self, self._pos - 1)
 
 class Signal(Exception):
     pass
